@@ -74,27 +74,30 @@ def eval_range(drv, wd, a, b, timeout=25, table=None):
 
 
 def nav_design(sc, tier):
-    """spec/NavFault.tla: the index descent terminates on EVERY index graph over N blocks under the reader's rule
-    (an entry leads only to an earlier block); without the rule (the pinned reader) TLC finds the loop - the self-test
-    that the model is not vacuous.  The code side of this obligation is the edge_to_* fault class."""
+    """spec/NavFault.tla: the index descent - including its roll-over into following index blocks - terminates on EVERY index
+    graph over N blocks under the reader's two rules (an entry leads to an earlier block; entries are taken from blocks that
+    move backwards); with only the first rule (the reader before the D22 repair) and with neither (the pinned reader) TLC finds
+    the loop - the self-tests that the model is not vacuous.  The code side of this obligation is the edge_to_* fault class."""
     sd = C.copy_spec(sc)
     n = 3 if tier == "quick" else 4
     out = {}
-    for rule in ("TRUE", "FALSE"):
-        cfg = os.path.join(sd, "nav_%s.cfg" % rule)
+    for rule, roll in (("TRUE", "TRUE"), ("TRUE", "FALSE"), ("FALSE", "FALSE")):
+        cfg = os.path.join(sd, "nav_%s_%s.cfg" % (rule, roll))
+        full = rule == "TRUE" and roll == "TRUE"
         with open(cfg, "w") as f:
-            f.write("SPECIFICATION Spec\nCONSTANTS\n  N = %d\n  RuleOn = %s\nCHECK_DEADLOCK FALSE\nINVARIANT C18_DescentTerminates\n" % (n if rule == "TRUE" else 3, rule))
+            f.write("SPECIFICATION Spec\nCONSTANTS\n  N = %d\n  RuleOn = %s\n  RollRuleOn = %s\nCHECK_DEADLOCK FALSE\nINVARIANT C18_DescentTerminates\n"
+                    % (n if full else 3, rule, roll))
         r = C.tlc(sd, "NavFault", cfg, sc, workers=8, timeout=1800)
         inv, _ = C.tlc_violations(r["out"])
-        if rule == "TRUE":
+        if full:
             if inv or "No error has been found" not in r["out"]:
                 raise C.Inconclusive("NavFault: the design model does not establish termination: " + r["out"][-1500:])
             out["graphs"] = r["distinct"]
             out["blocks"] = n
         else:
             if "C18_DescentTerminates" not in inv:
-                raise C.Inconclusive("NavFault self-test: without the offset rule the model should loop: " + r["out"][-1500:])
-            out["without_rule"] = "loops (self-test)"
+                raise C.Inconclusive("NavFault self-test: without the rule(s) the model should loop: " + r["out"][-1500:])
+            out["rule1_only" if rule == "TRUE" else "no_rule"] = "loops (self-test)"
     return out
 
 
@@ -123,7 +126,7 @@ def run(pid, tier):
                                "time": 1, "tz": 0, "msg": "m"}]
         pick.append(bigblk)
         # tables whose ref index has several levels (95-byte names: an index block of 256 bytes holds two entries): the index graph
-        for di, (nd, hs) in enumerate([(24, 40), (40, 64)] if tier == "quick" else [(24, 40), (40, 64), (70, 40), (120, 64)]):
+        for di, (nd, hs) in enumerate([(24, 40), (40, 64), (70, 40), (120, 64)]):
             one = "c3" * (hs // 2)
             names = ["refs/heads/%s%05d" % ("w" * 95, 3 * j + 1) for j in range(nd)]
             pick.append({"id": "fdeep%d" % di, "blocksize": 256, "restart": 16, "unaligned": bool(di % 2), "skipindex": False, "hash": "sha1" if hs == 40 else "s256", "exact": False,
@@ -184,7 +187,7 @@ def run(pid, tier):
             k = ks[0]
             ft = faults[k]
             rp = C.save_replay(pid, "fault-%d-%d" % (seed, nviol), {"property": pid, "signature": sig, "fault": ft, "outcome": bad[k], "count": len(ks),
-                                                                      "case": pick[ft["table"]] if ft["table"] < len(pick) else None})
+                                                                      "case": pick[plan["caseof"][ft["table"]]] if ft["table"] < len(plan.get("caseof", [])) else None})
             print("VIOLATION property=%s replay=%s" % (pid, rp))
             print("  %s  [field %s, fault %s, table layout %s; %d damaged files with this signature]" % (bad[k][:200], ft["field"], ft["class"], ft["feat"], len(ks)))
             nviol += 1
